@@ -400,6 +400,8 @@ impl Parse for ConversionsAttribute {
 
                     if input.peek(token::Comma) {
                         out.owned.tys.push_punct(input.parse::<token::Comma>()?)
+                    } else if !input.is_empty() {
+                        return Err(input.error("expected `,`"));
                     }
                 }
             }
